@@ -28,6 +28,7 @@ REQUIRED_THEOREMS = [
     # operator results / footprint; values of copies (with the dtype conversion)
     "data_is_live_view", "dataLive_run", "component_alias_history", "tensor_component_view",
     "apply_operator_footprint", "copy_reads_equal", "views_stable_run",
+    "inplace_scalar_values", "binop_scalar_values",
 ]
 RULE = ("random operation histories (5-40 operations: construction of scalar/vector/tensor fields, "
         "writes through data/_data_full/fc[k]/fc[label]/vector[c]=, marker writes of single cells, boundary-condition "
